@@ -55,7 +55,7 @@ theorem analyzeAll_exact_restr (hR : Restr g S IM) (hO : RestrOK g S IM)
       let lines := x.1.1; let v := x.1.2.1; let st := x.1.2.2
       1 ≤ st.depth ∧ st.depth ≤ cfg.depth ∧
       v = negamax g st.depth.toNat p ∧
-      (∀ line ∈ lines, ∃ m rest c, line = m :: rest ∧ g.apply p m = .ok c ∧
+      (∀ line ∈ lines, ∃ m rest c, line = m :: rest ∧ IM m ∧ g.apply p m = .ok c ∧
         v = -(negamax g (st.depth.toNat - 1) c)) ∧
       (∀ m ∈ g.allMoves p, ∀ c, g.apply p m = .ok c → v = -(negamax g (st.depth.toNat - 1) c) →
         ∃ line ∈ lines, ∃ m' rest, line = m' :: rest ∧ g.apply p m' = .ok c) ∧ EngGood IM x.2) := by
@@ -101,7 +101,7 @@ theorem analyzeAll_exact_restr (hR : Restr g S IM) (hO : RestrOK g S IM)
   · intro line hl
     obtain ⟨m, rest, c', e1, e2, e3⟩ := h6 line hl
     obtain ⟨him, hap⟩ := restrict_apply_inv e2
-    refine ⟨m, rest, c'.val, e1, hap, ?_⟩
+    refine ⟨m, rest, c'.val, e1, him, hap, ?_⟩
     rw [e3, negamax_restrict hR _ c' (hchild m _ him hap)]
   · intro m hm c hap hv
     have him : IM m := hR.gen p h0 m hm
